@@ -10,6 +10,7 @@ import (
 	crand "crypto/rand"
 	"fmt"
 	"io"
+	"math/big"
 	"math/rand"
 	"strings"
 	"sync"
@@ -240,6 +241,80 @@ func concRun(seed int64, barrier func()) ([]string, []otr3.ValidMessage) {
 	return log, held
 }
 
+// One more pair, of a different kind: one side's long-term key comes from a libotr key file (ImportKeys
+// does not look at sizes) and has a q of 224 or 256 bits. The signature format of the protocol has room
+// for a 160 bit q only, so the key exchange is refused with an error at the point where that side has
+// to sign - and that is all: nobody else in the process may notice. The first attempts are made before
+// the barrier that precedes the SMP runs of the ordinary pairs (every one of those runs comes after
+// them), the others while these runs are under way.
+func concWideRun(seed int64, barrier func()) []string {
+	r := rand.New(rand.NewSource(seed))
+	var log []string
+	pairTag := fmt.Sprintf("w%x", uint32(seed)&0xffff)
+	attempt := func(k int) {
+		bits := []uint{224, 256}[r.Intn(2)]
+		wideSigns := []string{"reveal-signature", "signature"}[r.Intn(2)]
+		full := testKeys[0]
+		q := new(big.Int).Lsh(big.NewInt(1), bits-1)
+		q.Add(q, big.NewInt(int64(1+2*r.Intn(500))))
+		file := kfLibotrFile(kfAcct{name: []byte("wide-" + pairTag), proto: []byte("prpl-" + pairTag),
+			p: full.PrivateKey.P, q: q, g: full.PrivateKey.G, y: full.PrivateKey.Y, x: full.X})
+		as, err := otr3.ImportKeys(bytes.NewReader(file))
+		if err != nil || len(as) != 1 {
+			log = append(log, fmt.Sprintf("attempt %d: key file with a q of %d bits not imported (%d accounts, err=%s)", k, bits, len(as), otr3.VerifErrClass(err)))
+			return
+		}
+		wide, ok := as[0].Key.(*otr3.DSAPrivateKey)
+		if !ok || wide.PrivateKey.Q.Cmp(q) != 0 {
+			log = append(log, fmt.Sprintf("attempt %d: imported key differs from the file", k))
+			return
+		}
+		mk := func(tag string, key *otr3.DSAPrivateKey) *concParty {
+			c := &otr3.Conversation{}
+			c.Rand = &seedReader{rand.New(rand.NewSource(r.Int63()))}
+			c.Policies.AllowV3()
+			c.SetOurKeys([]otr3.PrivateKey{&concKey{key}})
+			p := &concParty{c: c, log: &log, tag: tag + pairTag}
+			c.SetMessageEventHandler(p)
+			c.SetSecurityEventHandler(p)
+			c.SetSMPEventHandler(p)
+			c.SetErrorMessageHandler(p)
+			return p
+		}
+		ord := *testKeys[1]
+		x, y := mk("X", wide), mk("Y", &ord)
+		log = append(log, fmt.Sprintf("attempt %d: X has an imported DSA key with q = %x (%d bits) and is the one to send the %s message", k, q, bits, wideSigns))
+		from, to := x, y // the one who asks receives the D-H Commit and signs second
+		if wideSigns == "reveal-signature" {
+			from, to = y, x
+		}
+		ms := []otr3.ValidMessage{from.c.QueryMessage()}
+		failed := false
+		for i := 0; i < 8 && len(ms) > 0; i++ {
+			var nx []otr3.ValidMessage
+			for _, m := range ms {
+				otr3.VerifShiftClock(to.c, 2*time.Hour)
+				plain, ts, err := to.c.Receive(m)
+				failed = failed || err != nil
+				log = append(log, fmt.Sprintf("%s recv plain=%x err=%s n=%d %s", to.tag, plain, otr3.VerifErrClass(err), len(ts), otr3.VerifSnapString(to.c)))
+				nx = append(nx, ts...)
+			}
+			ms = nx
+			from, to = to, from
+		}
+		log = append(log, fmt.Sprintf("attempt %d: refused with an error: %v, encrypted: %v/%v", k, failed, x.c.IsEncrypted(), y.c.IsEncrypted()))
+	}
+	for k := 0; k < 2; k++ {
+		attempt(k)
+	}
+	barrier()
+	for k := 2; k < 8; k++ {
+		attempt(k)
+	}
+	barrier()
+	return log
+}
+
 // what the replies handed out earlier look like now
 func heldLines(held []otr3.ValidMessage) []string {
 	var out []string
@@ -247,6 +322,24 @@ func heldLines(held []otr3.ValidMessage) []string {
 		out = append(out, fmt.Sprintf("held reply %d: %q", i, m))
 	}
 	return out
+}
+
+// the SMP events of a transcript ("A smp:<event>:<percent>"), in order
+func smpLines(ls []string) string {
+	var out []string
+	for _, l := range ls {
+		if i := strings.Index(l, " smp:"); i >= 0 && i < 12 && !strings.Contains(l, "recv") {
+			out = append(out, l)
+		}
+	}
+	return strings.Join(out, ",")
+}
+
+func firstLine(ls []string) string {
+	if len(ls) == 0 {
+		return "<nothing>"
+	}
+	return ls[0]
 }
 
 func init() {
@@ -280,8 +373,10 @@ func init() {
 				}
 			}
 		}
+		wideSeed := seed*100000 + 99999
+		var wide [2][]string
 		for round := 0; round < 2; round++ {
-			conc := make([][]string, n)
+			conc := make([][]string, n+1) // the last one is the pair with the wide key
 			heldAll := make([][]otr3.ValidMessage, n)
 			var wg sync.WaitGroup
 			// a barrier for the last phase: everybody waits until all n pairs have arrived (a pair that
@@ -294,7 +389,7 @@ func init() {
 				defer bmu.Unlock()
 				gen := generation
 				waiting++
-				if waiting+gone >= n {
+				if waiting+gone >= n+1 {
 					waiting = 0
 					generation++
 					bcond.Broadcast()
@@ -307,14 +402,14 @@ func init() {
 			leave := func() {
 				bmu.Lock()
 				gone++
-				if waiting > 0 && waiting+gone >= n {
+				if waiting > 0 && waiting+gone >= n+1 {
 					waiting = 0
 					generation++
 					bcond.Broadcast()
 				}
 				bmu.Unlock()
 			}
-			for i := 0; i < n; i++ {
+			for i := 0; i <= n; i++ {
 				wg.Add(1)
 				go func(i int) {
 					defer wg.Done()
@@ -329,12 +424,18 @@ func init() {
 							leave() // (a panic: the others must not wait for this pair)
 						}
 					}()
-					conc[i], heldAll[i] = concRun(seed*100000+int64(i), barrier)
+					if i == n {
+						conc[i] = concWideRun(wideSeed, barrier)
+					} else {
+						conc[i], heldAll[i] = concRun(seed*100000+int64(i), barrier)
+					}
 					done = true
 					leave()
 				}(i)
 			}
 			wg.Wait()
+			wide[round] = conc[n]
+			conc = conc[:n]
 			// concurrently: the replies are looked at again when all conversations are done
 			for i := 0; i < n; i++ {
 				if len(conc[i]) != 1 || !strings.HasPrefix(conc[i][0], "PANIC") {
@@ -364,7 +465,42 @@ func init() {
 					if k < len(conc[i]) {
 						b = conc[i][k]
 					}
-					olog.viol("C20", "concurrent-run-differs-from-solo", fmt.Sprintf("pair %d (seed %d): line %d alone: %.200s | concurrently: %.200s", i, seed*100000+int64(i), k, a, b))
+					smp := ""
+					if sa, sb := smpLines(solo[i]), smpLines(conc[i]); sa != sb {
+						smp = fmt.Sprintf(" [SMP events of the pair (secrets equal) alone: %.400s | concurrently: %.400s]", sa, sb)
+					}
+					olog.viol("C20", "concurrent-run-differs-from-solo", fmt.Sprintf("pair %d (seed %d): line %d alone: %.200s | concurrently: %.200s%s (in the concurrent run there is one more pair, in which a conversation with an imported DSA key whose q has 224 or 256 bits has its key exchange refused: %.200s)", i, seed*100000+int64(i), k, a, b, smp, firstLine(wide[round])))
+				}
+			}
+		}
+		// the pair with the wide key alone (after everybody else: the ordinary pairs ran alone in a process
+		// that had not seen such a key yet)
+		{
+			alone := concWideRun(wideSeed, func() {})
+			refused := 0
+			for _, l := range alone {
+				if strings.Contains(l, "refused with an error: true, encrypted: false/false") {
+					refused++
+				}
+			}
+			dist["conc:wide-q-key-exchanges-refused"] += refused
+			for round := 0; round < 2; round++ {
+				olog.ok("C20")
+				dist["conc:pairs"]++
+				dist["conc:transcript-lines"] += len(wide[round])
+				if strings.Join(wide[round], "\n") != strings.Join(alone, "\n") {
+					k := 0
+					for k < len(wide[round]) && k < len(alone) && wide[round][k] == alone[k] {
+						k++
+					}
+					a, b := "<end>", "<end>"
+					if k < len(alone) {
+						a = alone[k]
+					}
+					if k < len(wide[round]) {
+						b = wide[round][k]
+					}
+					olog.viol("C20", "concurrent-run-differs-from-solo", fmt.Sprintf("pair with the imported wide-q key (seed %d): line %d alone: %.200s | concurrently: %.200s", wideSeed, k, a, b))
 				}
 			}
 		}
